@@ -5,7 +5,8 @@
    [min_leaf_depth], [max_leaf_depth]) are the recursive ones of Model/TreeDef.v.  All statements are for
    every tree, with no bound on size or depth; [ids] stands for Python object identity. *)
 From Coq Require Import List Arith Bool ZArith Permutation.
-From OV Require Import Model.TreeDef Model.TreeAlgo Model.TreeAlgoProofs.
+From OV Require Import Model.TreeDef Model.TreeAlgo Model.TreeAlgoProofs Model.TreeAlgoDescr Model.TreeAlgoDescrProofs.
+From OV Require Gen.TreeAlgoDescr.
 Import ListNotations.
 
 (* ---- n_nodes, n_leaves, min_depth, max_depth: the level-order sweep of _properties *)
@@ -85,6 +86,61 @@ Proof. exact find_node_root. Qed.
 (* ---- the trees of the correspondence run (pre-order numbering) satisfy the NoDup hypothesis *)
 Theorem C11_corr_trees_have_unique_ids : forall s, NoDup (ids (tree_of s)).
 Proof. exact tree_of_nodup. Qed.
+
+(* ---- the tie to the source: translate/t_treealgo.py regenerates Gen/TreeAlgoDescr.v from core/node.py on every
+   check; each regenerated description is, literally, the description that the mirror of Model/TreeAlgo.v implements
+   (an edit of node.py that changes a push order, a condition, an accumulator update or a returned expression
+   makes these fail, whatever the sampled correspondence sees) ... *)
+Theorem C11_descr_pre_order_regenerated : OV.Gen.TreeAlgoDescr.pre_order_descr = Some descr_pre.
+Proof. reflexivity. Qed.
+
+Theorem C11_descr_post_order_regenerated : OV.Gen.TreeAlgoDescr.post_order_descr = Some descr_post.
+Proof. reflexivity. Qed.
+
+Theorem C11_descr_properties_regenerated : OV.Gen.TreeAlgoDescr.properties_descr = Some descr_props.
+Proof. reflexivity. Qed.
+
+Theorem C11_descr_find_node_regenerated : OV.Gen.TreeAlgoDescr.find_node_descr = Some descr_find.
+Proof. reflexivity. Qed.
+
+(* ... and the interpreter of the descriptions, run on them, is the mirror (every tree, every heap) *)
+Theorem C11_interp_pre_order : forall t, interp_pre descr_pre t = pre_stack t.
+Proof. exact interp_pre_eq. Qed.
+
+Theorem C11_interp_post_order : forall t, interp_post descr_post t = post_stack t.
+Proof. exact interp_post_eq. Qed.
+
+Theorem C11_interp_properties : forall t, interp_props descr_props t = option_map props_to_z (props_bfs t).
+Proof. exact interp_props_eq. Qed.
+
+Theorem C11_interp_find_node : forall par flg t p,
+  interp_find descr_pre descr_post descr_find par flg t p = find_node_h par flg t p.
+Proof. exact interp_find_eq. Qed.
+
+Theorem C11_descr_post_descend_keeps_cur : keeps_cur (post_descend descr_post) = true.
+Proof. exact descr_post_keeps_cur. Qed.
+
+(* end to end: whatever was regenerated from the source, interpreted, computes the recursive definitions *)
+Theorem C11_source_pre_order : forall d, OV.Gen.TreeAlgoDescr.pre_order_descr = Some d ->
+  forall t, interp_pre d t = Some (pre_rec t).
+Proof. exact (pre_of_descr _ C11_descr_pre_order_regenerated). Qed.
+
+Theorem C11_source_post_order : forall d, OV.Gen.TreeAlgoDescr.post_order_descr = Some d ->
+  forall t, NoDup (ids t) -> interp_post d t = Some (post_rec t).
+Proof. exact (post_of_descr _ C11_descr_post_order_regenerated). Qed.
+
+Theorem C11_source_measurements : forall d, OV.Gen.TreeAlgoDescr.properties_descr = Some d ->
+  forall t, interp_props d t =
+            Some (Z.of_nat (size t), Z.of_nat (leaves t), Z.of_nat (min_leaf_depth t), Z.of_nat (max_leaf_depth t)).
+Proof. exact (props_of_descr _ C11_descr_properties_regenerated). Qed.
+
+Theorem C11_source_find_node : forall dp dq df,
+  OV.Gen.TreeAlgoDescr.pre_order_descr = Some dp -> OV.Gen.TreeAlgoDescr.post_order_descr = Some dq ->
+  OV.Gen.TreeAlgoDescr.find_node_descr = Some df ->
+  forall t tbl p, NoDup (map fst tbl) -> incl (heap_of t) tbl ->
+  interp_find dp dq df (par_of tbl) (flg_of tbl) t p =
+  if Nat.ltb p (size t) then nth_error (fn_spec_list (None, true) None t) p else Some (FnSlot None false).
+Proof. exact (find_of_descr _ _ _ C11_descr_pre_order_regenerated C11_descr_post_order_regenerated C11_descr_find_node_regenerated). Qed.
 
 (* ---- non-vacuity *)
 Definition ex_tree : tree :=     (* SUM(EXP(x0), MUL(x1, ABS(x2))) with pre-order ids *)
